@@ -21,9 +21,13 @@ def Lab.isFrac : Lab → Bool
 /-- the invariant carried through the stages -/
 def labGood (f : FGate) : Bool := labTrue f && (f.g.name != .PHASEGATE || !f.lab.isFrac)
 
-/-- one template gate with its label, in the rule of the gate named `n` -/
+/-- gates with an angle that the rules emit -/
+def angled : List GName := [.RX, .RY, .RZ, .GLOBALPHASE, .PHASEGATE, .CRX, .CRY, .CRZ, .CPHASE, .SWAPalpha]
+
+/-- one template gate with its label, in the rule of the gate named `n`: a gate with an angle IS labelled, and
+the label is right -/
 def tplOK (n : GName) (t : TGate) (l : TLab) : Bool :=
-  t.name != .PHASEGATE &&
+  t.name != .PHASEGATE && (!angled.contains t.name || l != .none) &&
   match l with
   | .none => true
   | .frac k m => t.arg.cn == 0 && t.arg.p8 * (m : Int) == 8 * k
@@ -39,6 +43,17 @@ theorem gateLab_ok (n : GName) (body : List TGate) (h : gateRule n = .templ body
 theorem basisLab_ok (y n : GName) (body : List TGate) (h : basisRule y n = some body) :
     labsOK n body (basisLab y n) = true ∧ n ≠ .PHASEGATE := by
   cases y <;> cases n <;> simp only [basisRule, reduceCtorEq] at h <;> (cases h; decide)
+
+/-- **every rule labels the angles it writes**: a template gate with an angle has a label (the text `kπ/m` of
+its fixed angle, or the label of the rewritten gate) -/
+theorem rule_labels_complete (n : GName) (body : List TGate) (labs : List TLab) (h : labsOK n body labs = true)
+    (t : TGate) (i : Nat) (hm : (t, i) ∈ body.zipIdx) (ha : angled.contains t.name = true) :
+    labs.getD i .none ≠ .none := by
+  have := List.all_eq_true.mp h (t, i) hm
+  simp only [tplOK, Bool.and_eq_true, Bool.or_eq_true, Bool.not_eq_true', bne_iff_ne, ne_eq] at this
+  rcases this.1.2 with h' | h'
+  · rw [ha] at h'; cases h'
+  · exact h'
 
 /-! ## instantiation, position by position -/
 
@@ -83,7 +98,7 @@ theorem built_good (kc : Bool) (n : GName) (f : FGate) (hn : f.g.name = n) (hf :
     labGood (built kc f g (l.inst f.lab)) = true := by
   obtain ⟨hname, harg⟩ := inst_arg f.g t g hi
   simp only [tplOK, Bool.and_eq_true, bne_iff_ne, ne_eq] at hok
-  obtain ⟨hnp, hl⟩ := hok
+  obtain ⟨⟨hnp, _⟩, hl⟩ := hok
   simp only [labGood, Bool.and_eq_true, Bool.or_eq_true, bne_iff_ne, ne_eq, Bool.not_eq_true'] at hf ⊢
   refine ⟨?_, Or.inl (by simp only [built]; rw [hname]; exact hnp)⟩
   cases l with
